@@ -15,7 +15,7 @@ from common import cbool, clist, cnat
 THEORY = "C01"
 ALLOWED = {  # kind -> allowed result classes (without fault) ; delivery_error always allowed under a fault
     "ok": "value", "exc": "exception", "baseexc": "exception", "badres": "delivery_error", "badarg": "delivery_error",
-    "slow_to": "timeout", "islocked": "value", "badload_arg": "delivery_error", "badload_res": "delivery_error"}
+    "slow_to": "timeout", "islocked": "value", "getname": "value", "getsignals": "value", "badload_arg": "delivery_error", "badload_res": "delivery_error"}
 
 
 def to_labels(obs, spec):
@@ -35,7 +35,7 @@ def to_labels(obs, spec):
             c = obs["calls"][tag]
             cid = callers.setdefault(c["caller"], len(callers))
             kind = c["kind"]
-            body = {"badload_arg": "OValue %d" % rid, "badload_res": "OValue %d" % rid, "ok": "OValue %d" % rid, "badres": "OValue %d" % rid, "badarg": "OValue %d" % rid, "slow_to": "OValue %d" % rid, "islocked": "OValue %d" % rid,
+            body = {"getname": "OValue %d" % rid, "getsignals": "OValue %d" % rid, "badload_arg": "OValue %d" % rid, "badload_res": "OValue %d" % rid, "ok": "OValue %d" % rid, "badres": "OValue %d" % rid, "badarg": "OValue %d" % rid, "slow_to": "OValue %d" % rid, "islocked": "OValue %d" % rid,
                     "exc": "OExc %d" % rid, "baseexc": "OExc %d" % rid}[kind]
             info.append("mkInfo %s %s %s %s (%s)" % (cbool(c["remote"]), cnat(cid), cbool(kind != "badarg"),
                                                      cbool(kind != "badres"), body))
@@ -118,7 +118,7 @@ def to_labels(obs, spec):
     xlog = [rid_of[e[1]] for e in obs["trace"] if e[0] == "Exec" and e[1] in rid_of]
     # ... which, restricted to method calls, must be the order in which the method bodies were entered
     bodies = [tag_rid[x[1]] for x in obs["execlog"] if x[0] == "enter" and x[1] in tag_rid]
-    lockreq = {tag_rid[t] for t, c in obs["calls"].items() if c["kind"] == "islocked" and t in tag_rid}
+    lockreq = {tag_rid[t] for t, c in obs["calls"].items() if c["kind"] in ("islocked", "getname", "getsignals") and t in tag_rid}
     if [r for r in xlog if r not in lockreq] != bodies:
         raise ValueError("worker dispatch order %r differs from the order of method-body entries %r" % (xlog, bodies))
     return labels, info, cls, xlog
